@@ -52,15 +52,18 @@ def main():
         demo_cmd = re.sub(r'CARGO_NET_OFFLINE=\S+\s*', '', demo_cmd)
         res['demo_cmd'] = demo_cmd
         t0 = time.time()
+        sh("git diff --name-only | xargs -r touch; git ls-files -o --exclude-standard | xargs -r touch", cwd=wt)
         rc, out = sh(demo_cmd, cwd=wt, env=env)
         res['demo_without_change'] = {'exit': rc, 'passed_failed': summarize(out), 'ok': rc == 0}
         rc, o2 = sh('git apply %s/patch.diff' % seed, cwd=wt)
         res['patch_applies'] = rc == 0
+        sh("git diff --name-only | xargs -r touch", cwd=wt)
         rc, out = sh(demo_cmd, cwd=wt, env=env)
         res['demo_with_change'] = {'exit': rc, 'passed_failed': summarize(out), 'ok': rc != 0 and summarize(out)[1] > 0,
                                    'tail': out.splitlines()[-12:]}
         # existing tests with the change, demonstration removed
         sh('git apply -R %s/demo.diff' % seed, cwd=wt)
+        sh("git diff --name-only | xargs -r touch", cwd=wt)
         crates = sorted({f.split('/')[1] for f in meta.get('files_changed', []) if f.startswith('rs/')})
         if not crates:
             crates = sorted({l.split('/')[2] for l in open(seed + '/patch.diff') if l.startswith('+++ b/rs/')})
